@@ -23,7 +23,8 @@ from pyoak.legacy.match.xpath import ASTXpath  # noqa: E402
 from pyoak.legacy.node import AwareASTNode as N  # noqa: E402
 from pyoak.origin import NO_ORIGIN  # noqa: E402
 
-from ..core import Rec  # noqa: E402
+from ..core import Rec
+from .c05 import FalsyPredicate  # noqa: E402
 from ..desc import ONE, OPT, PROP, VAR, C, F, Universe  # noqa: E402
 from ..ref import traversal as RT  # noqa: E402
 from ..ref import xpath as RX  # noqa: E402
@@ -149,8 +150,9 @@ def check_traversal(rec, d, light):
                         head = [()] if () in fl else []
                         exp = (exp + head) if fn == "dfs-bu" else (head + exp)
                     calls = []
-                    pf = (lambda n: (calls.append(pid.get(id(n))), pid.get(id(n)) in pr)[1]) if pr else None
-                    ff = lambda n: (calls.append(pid.get(id(n))), pid.get(id(n)) in fl)[1]  # noqa: E731
+                    # predicates are callable objects that are falsy in a boolean context ("no predicate" is None)
+                    pf = FalsyPredicate(lambda n: (calls.append(pid.get(id(n))), pid.get(id(n)) in pr)[1]) if pr else None
+                    ff = FalsyPredicate(lambda n: (calls.append(pid.get(id(n))), pid.get(id(n)) in fl)[1])
                     rec.count("transitions"); rec.count("traces")
                     if fn == "bfs":
                         got = [pid.get(id(n)) for n in start.bfs(prune=pf, filter=ff, skip_self=skip)]
@@ -171,19 +173,34 @@ def check_traversal(rec, d, light):
             pycs = tuple(N if c == "N" else U.classes[c].pycls for c in cs)
             for exact in (False, True):
                 for skip in (False, True):
-                    rec.count("evaluations"); rec.count("transitions"); rec.count("traces")
+                    allpos = [p for p, _ in rel]
+                    extras = [None, frozenset()] + [frozenset([p]) for p in allpos[:3]]
+                    prunes = [None] + [frozenset([p]) for p in allpos[:3]]
+                    for ex, prs in itertools.product(extras, prunes):
+                        rec.count("evaluations"); rec.count("transitions"); rec.count("traces")
 
-                    def filt_p(p, cs=cs, exact=exact):
-                        cn = dict(rel)[p][0]
-                        return (cn in cs) if exact else any(c == "N" or U.isinstance(cn, c) for c in cs)
+                        def filt_p(p, cs=cs, exact=exact, ex=ex):
+                            cn = dict(rel)[p][0]
+                            hit = (cn in cs) if exact else any(c == "N" or U.isinstance(cn, c) for c in cs)
+                            return hit and (ex is None or p in ex)
 
-                    exp = RT.pre_order(U, start_desc, lambda p: False, filt_p)
-                    if not skip and filt_p(()):
-                        exp = [()] + exp
-                    got = [pid.get(id(n)) for n in start.gather(pycs if len(pycs) > 1 else pycs[0], exact_type=exact, skip_self=skip)]
-                    if got != exp:
-                        rec.violation("C20|gather|sequence", dict(case, classes=list(cs), exact=exact, skip_self=skip), "legacy gather differs from the restricted pre-order stream")
-
+                        pset = prs or frozenset()
+                        exp = RT.pre_order(U, start_desc, lambda p: p in pset, filt_p)
+                        if not skip:
+                            if () in pset:
+                                exp = []
+                            if filt_p(()):
+                                exp = [()] + exp
+                        kw = {}
+                        if ex is not None:
+                            kw["extra_filter"] = FalsyPredicate(lambda n, ex=ex: pid.get(id(n)) in ex)
+                        if prs is not None:
+                            kw["prune"] = FalsyPredicate(lambda n, prs=prs: pid.get(id(n)) in prs)
+                        got = [pid.get(id(n)) for n in start.gather(pycs if len(pycs) > 1 else pycs[0], exact_type=exact, skip_self=skip, **kw)]
+                        if got != exp:
+                            rec.violation("C20|gather|sequence", dict(case, classes=list(cs), exact=exact, skip_self=skip, extra=ex is not None, prune=prs is not None),
+                                          "legacy gather differs from the restricted pre-order stream",
+                                          expected=[_pp(p) for p in exp], observed=[_pp(p) if p is not None else "<outside>" for p in got])
 
 def _pp(p):
     return "/".join(f"{f}[{i}]" if i is not None else f for f, i in p) or "<start>"
